@@ -51,7 +51,14 @@ namespace occa {
         }
       }
       if (encoding & encodingType::R) {
-        out << 'R';
+        // Raw strings are not escaped: R"delimiter(value)delimiter"
+        // Use a delimiter that cannot end the value early
+        std::string delimiter;
+        while (value.find(")" + delimiter + "\"") != std::string::npos) {
+          delimiter += '_';
+        }
+        out << "R\"" << delimiter << '(' << value << ')' << delimiter << '"' << udf;
+        return;
       }
       out << '"' << escape(value, '"') << '"' << udf;
     }
